@@ -191,3 +191,72 @@ Proof.
   - intros; apply Hg.
   - rewrite N. reflexivity.
 Qed.
+
+(* T04g. The parts made by the library itself (database.py) hold every row exactly once, so the
+   log likelihood -- and every component of gradient, Hessian, BHHH -- summed over them is the
+   total of the data set:
+   Database.extract_rows on the interleaved ranges range(k, n, m) (k = 0..m-1), on a reversed
+   range, on any list of valid positions; Database.split = numpy.array_split of the shuffled rows
+   into k slices for ANY remainder of n by k, and each of its estimation / validation pairs;
+   Database.mdcev_row_split (one part per row).  (The groups= / panel variant of split is covered
+   by the stream only: partial.) *)
+Theorem T04g_interleaved_ranges_partition : forall n m, (0 < m)%Z ->
+  Permutation (concat (interleaved n m)) (zrange 0 n).
+Proof. exact interleaved_partition. Qed.
+Print Assumptions T04g_interleaved_ranges_partition.
+
+Theorem T04g_reversed_range : forall n, (0 <= n)%Z -> Permutation (py_range (n - 1) (-1) (-1)) (zrange 0 n).
+Proof. exact reversed_range. Qed.
+Print Assumptions T04g_reversed_range.
+
+Theorem T04g_range_step1 : forall a b, py_range a b 1 = zrange a b.
+Proof. exact py_range_step1. Qed.
+Print Assumptions T04g_range_step1.
+
+Theorem T04g_extract_rows : forall n ps, (forall i, In i ps -> (0 <= i < n)%Z) ->
+  extract_rows 0%Z (zrange 0 n) ps = ps.
+Proof. exact extract_rows_positions. Qed.
+Print Assumptions T04g_extract_rows.
+
+Theorem T04g_array_split : forall (A : Type) (l : list A) (k : nat), (0 < k)%nat ->
+  concat (array_split l k) = l /\ length (array_split l k) = k.
+Proof. exact array_split_concat. Qed.
+Print Assumptions T04g_array_split.
+
+Theorem T04g_estimation_validation : forall (A : Type) (slices : list (list A)) (i : nat),
+  (i < length slices)%nat ->
+  Permutation (estimation_of slices i ++ validation_of slices i) (concat slices).
+Proof. exact estimation_validation_partition. Qed.
+Print Assumptions T04g_estimation_validation.
+
+Theorem T04g_library_parts_total : forall n m k (shuffled : list Z) w f, (0 < m)%Z -> (0 < k)%nat ->
+  Permutation shuffled (zrange 0 n) ->
+  total_of_parts (interleaved n m) w f = loglike (zrange 0 n) w f /\
+  total_of_parts (array_split shuffled k) w f = loglike (zrange 0 n) w f /\
+  total_of_parts (row_split (zrange 0 n)) w f = loglike (zrange 0 n) w f /\
+  (forall i, (i < k)%nat ->
+     loglike (estimation_of (array_split shuffled k) i) w f + loglike (validation_of (array_split shuffled k) i) w f
+     = loglike (zrange 0 n) w f).
+Proof. exact library_parts_total. Qed.
+Print Assumptions T04g_library_parts_total.
+
+Theorem T04g_library_parts_vtotal : forall d n m k (shuffled : list Z) w v j, (0 < m)%Z -> (0 < k)%nat ->
+  Permutation shuffled (zrange 0 n) -> (forall r, In r (zrange 0 n) -> length (v r) = d) ->
+  nth j (vtotal_of_parts d (interleaved n m) w v) 0 = loglike (zrange 0 n) w (comp j v) /\
+  nth j (vtotal_of_parts d (array_split shuffled k) w v) 0 = loglike (zrange 0 n) w (comp j v) /\
+  nth j (vtotal_of_parts d (row_split (zrange 0 n)) w v) 0 = loglike (zrange 0 n) w (comp j v).
+Proof. exact library_parts_vtotal. Qed.
+Print Assumptions T04g_library_parts_vtotal.
+
+(* non-vacuity: 11 rows in 3 interleaved ranges / 3 slices (remainder 2): nothing lost *)
+Example T04g_example :
+  interleaved 11 3 = [[0; 3; 6; 9]; [1; 4; 7; 10]; [2; 5; 8]]%Z /\
+  array_split_sizes 11 3 = [4; 4; 3]%nat /\ array_split_sizes 7 2 = [4; 3]%nat /\
+  array_split [5; 3; 1; 0; 2; 4; 6]%Z 2 = [[5; 3; 1; 0]; [2; 4; 6]]%Z /\
+  py_range 9 (-1) (-3) = [9; 6; 3; 0]%Z.
+Proof. vm_compute. repeat split. Qed.
+
+(* T04d'. A constant weight c (a bare Numeric as weight formula) multiplies the unweighted sum. *)
+Theorem T04d_constant_weight : forall rows c f, loglike rows (fun _ => c) f = c * rsum (map f rows).
+Proof. exact constant_weight. Qed.
+Print Assumptions T04d_constant_weight.
